@@ -73,6 +73,11 @@ func (c *PushedAuthorizeHandler) HandlePushedAuthorizeEndpointRequest(ctx contex
 
 	requestURI := fmt.Sprintf("%s%s", configProvider.GetPushedAuthorizeRequestURIPrefix(ctx), b64.EncodeToString(stateKey))
 
+	// Client credentials authenticated this request; they must not be persisted with it.
+	for _, secret := range []string{"client_secret", "client_assertion", "client_assertion_type"} {
+		ar.GetRequestForm().Del(secret)
+	}
+
 	// store
 	if err = storage.CreatePARSession(ctx, requestURI, ar); err != nil {
 		return errorsx.WithStack(fosite.ErrServerError.WithHint("Unable to store the PAR session").WithWrap(err).WithDebug(err.Error()))
